@@ -18,6 +18,10 @@ SHAPES = {
     'tree': (4, [(0, 1), (0, 2), (2, 3)]),
     'chain4': (4, [(0, 1), (1, 2), (2, 3)]),
     'join': (3, [(0, 2), (1, 2)]),          # N1 is only reachable if it is itself a root
+    # a shortcut edge next to a path: the dependency is first met as a sibling and again below a sibling
+    'triangle': (3, [(0, 1), (0, 2), (1, 2)]),
+    'triangle-rev': (3, [(0, 1), (0, 2), (2, 1)]),
+    'kite': (4, [(0, 1), (0, 2), (1, 2), (2, 3), (1, 3)]),
 }
 NAMES = ['Alpha', 'Beta', 'Gamma', 'Delta']
 EDGE_CTX = ['-', 'opt', 'vec', 'hmap-v', 'hmap-k', 'tup2-0', 'tup2-1', 'hset', 'result', 'vec+opt', 'opt+vec', 'hmap-v+vec', 'tup2-1+hmap-v', 'result+hmap-v',
